@@ -112,52 +112,42 @@ def run(eng, rep, tier):
     # in locals inlined) contains an emptiness test - in any spelling - of two different `.content` collections
     from .flow import facts_imply_empty, inline_locals
 
-    def _conjuncts(e, depth=0):
-        if isinstance(e, ast.BoolOp) and isinstance(e.op, ast.And):
-            return [c for v in e.values for c in _conjuncts(v, depth)]
-        if isinstance(e, ast.Name) and depth < 2:
-            defs = inline_locals(fu.node, e, depth=1)[1:]
+    def _implied_empties(test, pol, depth=0):
+        """the `.content` collections that are certainly empty when `test` evaluates to `pol`"""
+        if isinstance(test, ast.UnaryOp) and isinstance(test.op, ast.Not):
+            return _implied_empties(test.operand, not pol, depth)
+        if isinstance(test, ast.BoolOp):
+            if isinstance(test.op, ast.And) == pol:      # true conjunction / false disjunction: every operand has value pol
+                return set().union(*[_implied_empties(v, pol, depth) for v in test.values])
+            return set()
+        if isinstance(test, ast.Name) and depth < 2:
+            defs = inline_locals(fu.node, test, depth=1)[1:]
             if len(defs) == 1:
-                return _conjuncts(defs[0], depth + 1)
-        return [e]
-    atomic = None
-    for sub in ast.walk(fu.node):
-        if isinstance(sub, ast.If):
-            empties = set()
-            for cj in _conjuncts(sub.test):
-                for x in ast.walk(cj):
-                    if isinstance(x, ast.Attribute) and x.attr in ("content", "_content"):
-                        txt = ast.unparse(x)
-                        if facts_imply_empty({(ast.unparse(cj), True, frozenset())}, txt):
-                            empties.add(txt)
-            if len(empties) >= 2:
-                atomic = sub
-
-    def _disjuncts(e):
-        if isinstance(e, ast.BoolOp) and isinstance(e.op, ast.Or):
-            return [c for v in e.values for c in _disjuncts(v)]
-        return [e]
-    atomic_block = atomic.body if atomic is not None else None
-    if atomic is None:
-        # the complex case first, leaving by `return`: `if a.content or b.content: ...; return` - what follows is the
-        # atomic case (both tests false: both collections empty)
-        for blk_owner in ast.walk(fu.node):
-            blk = getattr(blk_owner, "body", None)
+                return _implied_empties(defs[0], pol, depth + 1)
+            return set()
+        out = set()
+        for x in ast.walk(test):
+            if isinstance(x, ast.Attribute) and x.attr in ("content", "_content"):
+                txt = ast.unparse(x)
+                if facts_imply_empty({(ast.unparse(test), pol, frozenset())}, txt):
+                    out.add(txt)
+        return out
+    atomic, atomic_block = None, None
+    for blk_owner in ast.walk(fu.node):
+        for fieldname in ("body", "orelse"):
+            blk = getattr(blk_owner, fieldname, None)
             if not isinstance(blk, list):
                 continue
             for i, sub in enumerate(blk):
-                if not (isinstance(sub, ast.If) and sub.body and isinstance(sub.body[-1], (ast.Return, ast.Raise))):
+                if not isinstance(sub, ast.If):
                     continue
-                empties = set()
-                for dj in _disjuncts(sub.test):
-                    for x in ast.walk(dj):
-                        if isinstance(x, ast.Attribute) and x.attr in ("content", "_content"):
-                            txt = ast.unparse(x)
-                            if facts_imply_empty({(ast.unparse(dj), False, frozenset())}, txt):
-                                empties.add(txt)
-                if len(empties) >= 2:
-                    atomic = sub
-                    atomic_block = list(sub.orelse) + blk[i + 1:]
+                if len(_implied_empties(sub.test, True)) >= 2:
+                    atomic, atomic_block = sub, sub.body                  # `if both empty: <atomic case>`
+                elif len(_implied_empties(sub.test, False)) >= 2:
+                    if sub.orelse:
+                        atomic, atomic_block = sub, sub.orelse            # `if not both empty: .. else: <atomic case>`
+                    elif sub.body and isinstance(sub.body[-1], (ast.Return, ast.Raise)):
+                        atomic, atomic_block = sub, blk[i + 1:]           # `if some content: ..; return` then the atomic case
     if atomic is None:
         rep.error("R1", "C18.3", fu.qname, "atomic-case-links-nodes", "the atomic case of unify was not found")
     else:
